@@ -440,6 +440,10 @@ func c18Fixed(c *Ctx) {
 		{name: "member-statement/this-property", files: map[string]string{"main.zn": "定义狗：\n\t其名 = “a”\n\t如何叫？\n\t\t令乙 = 1\n\t\t其不存在\n令D = （新建狗）\n以D（叫）\n"}, accept: [][]fr{{{M, 7}, {M, 5}}}},
 		{name: "member-statement/of-variable", files: map[string]string{"main.zn": "令甲 = 5\n令乙 = 6\n令丙 = 7\n甲之不存在\n"}, accept: [][]fr{{{M, 4}}}},
 		{name: "member-statement/call-site-inside", files: map[string]string{"main.zn": "如何取？\n\t输入数\n\t输出 10 / 数\n令甲 = 5\n令乙 = 6\n\n（取：0）之长度\n"}, accept: [][]fr{{{M, 7}, {M, 3}}}},
+		{name: "after-loop-signal-from-callee/continue-then-fault-in-call", files: map[string]string{"main.zn": "如何跳？\n\t令甲 = 1\n\t继续循环\n如何坏？\n\t令乙 = 1 / 0\n以项遍历【1，2】：\n\t（跳）\n\t令丙 = 1\n（坏）\n"}, accept: [][]fr{{{M, 9}, {M, 5}}}},
+		{name: "after-loop-signal-from-callee/continue-then-fault-in-main", files: map[string]string{"main.zn": "如何跳？\n\t令甲 = 1\n\t继续循环\n令次 = 0\n每当 次 < 2：\n\t次 = 次 + 1\n\t（跳）\n令子 = 1\n令丑 = 2\n令乙 = 1 / 0\n"}, accept: [][]fr{{{M, 10}}}},
+		{name: "after-loop-signal-from-callee/break-then-fault-in-call", files: map[string]string{"main.zn": "如何跳？\n\t令甲 = 1\n\t结束循环\n如何坏？\n\t令乙 = 【1】#5\n以项遍历【1，2】：\n\t（跳）\n\t令丙 = 1\n（坏）\n"}, accept: [][]fr{{{M, 9}, {M, 5}}}},
+		{name: "after-loop-signal-from-type-method/continue-then-fault", files: map[string]string{"main.zn": "定义器：\n\t其数 = 0\n\t如何跳？\n\t\t继续循环\n令物 = （新建器）\n以项遍历【1，2】：\n\t以物（跳）\n令子 = 1\n令乙 = 子 / 0\n"}, accept: [][]fr{{{M, 9}}}},
 		{name: "handler-fault/top-level", files: map[string]string{"main.zn": "令A = 1\n令B = A / 0\n令C = 2\n拦截异常：\n\t令D = 1\n\t令E = D / 0\n"}, accept: [][]fr{{{M, 6}}}},
 		{name: "handler-fault/after-returned-call", files: map[string]string{"main.zn": "如何丙？\n\t令Z = 1\n\t令W = Z / 0\n\n如何乙？\n\t令Y = 1 / 0\n\n如何甲？\n\t令X = 1\n\t（乙）\n\t令X2 = 1\n\t拦截异常：\n\t\t令Q = 1\n\t\t（丙）\n\n令A = 1\n（甲）\n"}, accept: [][]fr{{{M, 17}, {M, 14}, {M, 3}}}},
 		{name: "handler-fault/handler-name-is-no-identifier", files: map[string]string{"main.zn": "如何乙？\n\t令K = 1\n\t令Y = 1 / 0\n\n如何甲？\n\t令K = 1\n\t（乙）\n\n\t拦截1异常：\n\t\t输出5\n\n令A = 1\n（甲）\n"}, accept: [][]fr{{{M, 13}, {M, 7}}, {{M, 13}, {M, 9}}}},
